@@ -31,6 +31,7 @@ _REAL_STAT = _real_os.stat
 _REAL_LSTAT = _real_os.lstat
 _REAL_LISTDIR = _real_os.listdir
 _REAL_READLINK = _real_os.readlink
+_REAL_SCANDIR = _real_os.scandir
 # Paths of the interpreter and of the system under test itself are not part of
 # the simulated world: the import system, linecache and ply's self-inspection
 # read them. They pass through to the real file system, uncounted.
@@ -106,6 +107,9 @@ class SimStat:
             "l": _stat.S_IFLNK | 0o777,
         }[node.kind]
         self.st_uid = self.st_gid = 1000
+        self.st_blksize = 4096
+        self.st_blocks = (self.st_size + 511) // 512
+        self.st_rdev = 0
         self.st_mtime = self.st_atime = self.st_ctime = float(node.mtime)
         self.st_mtime_ns = self.st_atime_ns = self.st_ctime_ns = int(node.mtime * 1e9)
 
@@ -131,6 +135,7 @@ class SimFS:
         self.sticky = []  # persistent conditions: [(class, path or None, errno name, ops left)]
         self.open_files = []
         self.probes = {}
+        self.blksize = 4096  # st_blksize: the size of the buffered layer's buffer (as on ext4/tmpfs)
 
     # ------------------------------------------------------------------ tree
     def now(self) -> float:
@@ -478,89 +483,127 @@ class SimFS:
 
     # ------------------------------------------------------------- seam API
     def open(self, file, mode="r", buffering=-1, encoding=None, errors=None, newline=None, closefd=True, opener=None):
+        """builtins.open / io.open. The object handed out is CPython's own buffered/text stack
+        (io.BufferedReader/Writer/Random, io.TextIOWrapper) over a SimRaw: every file-object
+        idiom behaves as on a real file; only the raw layer is simulated."""
         if isinstance(file, int):
             if file >= self.FD_BASE:
                 return self.fdopen(file, mode, buffering, encoding, errors, newline)
             return _REAL_OPEN(file, mode, buffering, encoding, errors, newline, closefd, opener)
-        if opener is not None and not self.is_real(file):
-            import os as _o
-
-            fl = _o.O_RDONLY if "r" in mode and "+" not in mode else (_o.O_WRONLY | _o.O_CREAT | (_o.O_TRUNC if "w" in mode else 0) | (_o.O_APPEND if "a" in mode else 0) | (_o.O_EXCL if "x" in mode else 0))
-            fd = opener(file, fl)
-            if isinstance(fd, int) and fd >= self.FD_BASE:
-                return self.fdopen(fd, mode, buffering, encoding, errors, newline)
-            return _REAL_OPEN(fd, mode, buffering, encoding, errors, newline, closefd)
-        if self.is_real(file):
+        if not isinstance(mode, str):
+            raise TypeError("invalid mode: %r" % (mode,))
+        if self.is_real(file) and opener is None:
             if any(c in mode for c in "wax+"):
                 raise HarnessError("write to real path %r from inside the simulation" % (file,))
             return _REAL_OPEN(file, mode, buffering, encoding, errors, newline, closefd, opener)
+        fl = _ModeFlags(mode, buffering, encoding, errors, newline)
         path = _real_os.fspath(file)
         if isinstance(path, bytes):
             path = path.decode("utf-8", "surrogateescape")
-        m = "".join(sorted(c for c in mode if c not in "t"))
-        binary = "b" in m
-        m = m.replace("b", "")
-        if m == "r":
+        if opener is not None:
+            fd = opener(path, fl.os_flags())
+            if not isinstance(fd, int):
+                raise TypeError("expected integer from opener")
+            if fd < self.FD_BASE:
+                return _REAL_OPEN(fd, mode, buffering, encoding, errors, newline, closefd)
+            raw = self._fd(fd)
+            if not isinstance(raw, SimRaw):
+                raise oserr(errno.EISDIR, path)
+        else:
+            raw = self._open_raw(path, fl.reading and not fl.updating, fl.writing or fl.creating or fl.appending or fl.updating, fl.appending, fl.creating, fl.writing, must_exist=fl.reading, readable=fl.reading or fl.updating)
+        return self._wrap(raw, mode, fl, buffering, encoding, errors, newline)
+
+    def _open_raw(self, path, read_only, writable, append, excl, trunc, must_exist=False, readable=False, create=True):
+        if read_only:
             self._seam("open_r", path)
             node = self._walk(path)
             if node.kind == "d":
                 raise oserr(errno.EISDIR, path)
-            sf = SimFile(self, node, path, "r", binary, encoding, errors)
-            self.open_files.append(sf)
-            return sf
-        if m in ("w", "a", "x", "+w", "+a", "+r", "+x"):
-            if "+" in m:
-                raise HarnessError("SimFS.open: update mode %r not modelled" % mode)
-            self._seam("open_w", path)
-            parent, name = self._walk(path, want_parent=True)
-            if parent.kind != "d":
+            raw = SimRaw(self, node, path, True, False, False)
+            self.open_files.append(raw)
+            return raw
+        self._seam("open_w", path)
+        parent, name = self._walk(path, want_parent=True)
+        if parent.kind != "d":
+            raise oserr(errno.ENOTDIR, path)
+        ino = parent.entries.get(name)
+        if ino is not None:
+            node = self.inodes[ino]
+            if excl:
+                raise oserr(errno.EEXIST, path)
+            if node.kind == "l":
+                try:
+                    node = self._walk(path)
+                except FileNotFoundError:
+                    if must_exist or not create:
+                        raise
+                    # dangling symlink: create the target
+                    lp, ln = self._walk(posixpath.join(posixpath.dirname(self._abspath(path)), node.target), want_parent=True)
+                    node = self._new("f")
+                    node.nlink = 1
+                    lp.entries[ln] = node.ino
+                    node.dirty_from = b""
+            if node.kind == "d":
+                raise oserr(errno.EISDIR, path)
+            if path.endswith("/"):
                 raise oserr(errno.ENOTDIR, path)
-            ino = parent.entries.get(name)
-            if ino is not None:
-                node = self.inodes[ino]
-                if node.kind == "l":
-                    try:
-                        node = self._walk(path)
-                    except FileNotFoundError:
-                        # dangling symlink: create the target
-                        lp, ln = self._walk(posixpath.join(posixpath.dirname(self._abspath(path)), node.target), want_parent=True)
-                        node = self._new("f")
-                        node.nlink = 1
-                        lp.entries[ln] = node.ino
-                if m == "x":
-                    raise oserr(errno.EEXIST, path)
-                if node.kind == "d":
-                    raise oserr(errno.EISDIR, path)
-            else:
-                if path.endswith("/"):
-                    raise oserr(errno.EISDIR, path)
-                node = self._new("f")
-                node.nlink = 1
-                parent.entries[name] = node.ino
-                node.dirty_from = b""
-            if m in ("w", "x"):
-                if node.dirty_from is None:
-                    node.dirty_from = node.data
-                node.data = b""  # O_TRUNC takes effect at open
-                node.mtime = self.now()
-            sf = SimFile(self, node, path, "w", binary, encoding, errors)
-            self.open_files.append(sf)
-            return sf
-        raise ValueError("invalid mode: %r" % (mode,))
+        else:
+            if must_exist or not create:
+                raise oserr(errno.ENOENT, path)
+            if path.endswith("/"):
+                raise oserr(errno.EISDIR, path)
+            node = self._new("f")
+            node.nlink = 1
+            parent.entries[name] = node.ino
+            node.dirty_from = b""
+        if trunc:
+            if node.dirty_from is None:
+                node.dirty_from = node.data
+            node.data = b""  # O_TRUNC takes effect at open
+            node.mtime = self.now()
+        raw = SimRaw(self, node, path, readable, True, append)
+        self.open_files.append(raw)
+        return raw
+
+    def _wrap(self, raw, mode, fl, buffering, encoding, errors, newline):
+        """What io.open does above the raw file."""
+        import io
+
+        line_buffering = False
+        if buffering == 1 and not fl.binary:
+            buffering = -1
+            line_buffering = True
+        if buffering < 0:
+            buffering = self.blksize if self.blksize > 1 else io.DEFAULT_BUFFER_SIZE
+        if buffering == 0:
+            if fl.binary:
+                return raw
+            raise ValueError("can't have unbuffered text I/O")
+        if fl.updating:
+            buf = io.BufferedRandom(raw, buffering)
+        elif fl.creating or fl.writing or fl.appending:
+            buf = io.BufferedWriter(raw, buffering)
+        else:
+            buf = io.BufferedReader(raw, buffering)
+        if fl.binary:
+            return buf
+        text = io.TextIOWrapper(buf, encoding, errors, newline, line_buffering)
+        text.mode = mode
+        return text
 
     def stat(self, path, *, dir_fd=None, follow_symlinks=True):
         if isinstance(path, int):
-            raise HarnessError("SimFS.stat on a file descriptor")
-        if self.is_real(path):
+            if path >= self.FD_BASE:
+                return self.os_fstat(path)
+            return _REAL_STAT(path)
+        if dir_fd is None and self.is_real(path):
             return _REAL_STAT(path, follow_symlinks=follow_symlinks)
-        p = _real_os.fspath(path)
-        if isinstance(p, bytes):
-            p = p.decode("utf-8", "surrogateescape")
+        p = self._at(path, dir_fd)
         self._seam("stat", p)
         return SimStat(self._walk(p, follow_last=follow_symlinks))
 
     def lstat(self, path, *, dir_fd=None):
-        return self.stat(path, follow_symlinks=False)
+        return self.stat(path, dir_fd=dir_fd, follow_symlinks=False)
 
     def samefile(self, a, b) -> bool:
         s1 = self.stat(a)
@@ -583,9 +626,9 @@ class SimFS:
         self.cwd_removed = False
 
     def readlink(self, path, *, dir_fd=None) -> str:
-        if self.is_real(path):
+        if dir_fd is None and self.is_real(path):
             return _REAL_READLINK(path)
-        p = _real_os.fspath(path)
+        p = self._at(path, dir_fd)
         self._seam("stat", p)
         node = self._walk(p, follow_last=False)
         if node.kind != "l":
@@ -593,6 +636,10 @@ class SimFS:
         return node.target
 
     def listdir(self, path="."):
+        if isinstance(path, int):
+            if path < self.FD_BASE:
+                return _REAL_LISTDIR(path)
+            path = self._fd(path).path
         if self.is_real(path):
             return _REAL_LISTDIR(path)
         p = _real_os.fspath(path)
@@ -603,7 +650,7 @@ class SimFS:
         return sorted(node.entries)
 
     def mkdir(self, path, mode=0o777, *, dir_fd=None) -> None:
-        p = _real_os.fspath(path)
+        p = self._at(path, dir_fd)
         self._seam("open_w", p)
         parent, name = self._walk(p.rstrip("/") or "/", want_parent=True)
         if name in parent.entries:
@@ -613,7 +660,7 @@ class SimFS:
         parent.entries[name] = node.ino
 
     def unlink(self, path, *, dir_fd=None) -> None:
-        p = _real_os.fspath(path)
+        p = self._at(path, dir_fd)
         self._seam("open_w", p)
         parent, name = self._walk(p, want_parent=True)
         ino = parent.entries.get(name)
@@ -625,7 +672,7 @@ class SimFS:
         self.inodes[ino].nlink -= 1
 
     def rmdir(self, path, *, dir_fd=None) -> None:
-        p = _real_os.fspath(path)
+        p = self._at(path, dir_fd)
         self._seam("open_w", p)
         parent, name = self._walk(p.rstrip("/") or "/", want_parent=True)
         ino = parent.entries.get(name)
@@ -639,8 +686,8 @@ class SimFS:
         del parent.entries[name]
 
     def rename(self, src, dst, *, src_dir_fd=None, dst_dir_fd=None) -> None:
-        s = _real_os.fspath(src)
-        d = _real_os.fspath(dst)
+        s = self._at(src, src_dir_fd)
+        d = self._at(dst, dst_dir_fd)
         self._seam("open_w", d)
         sp, sn = self._walk(s, want_parent=True)
         ino = sp.entries.get(sn)
@@ -661,36 +708,54 @@ class SimFS:
     # ---------------------------------------------------- low-level descriptors
     FD_BASE = 1000
 
-    def os_open(self, path, flags, mode=0o777, *, dir_fd=None):
-        import os as _o
-
+    def _at(self, path, dir_fd):
+        """Path argument of a *at()-style call (dir_fd=...)."""
         p = _real_os.fspath(path)
         if isinstance(p, bytes):
             p = p.decode("utf-8", "surrogateescape")
-        acc = flags & (_o.O_WRONLY | _o.O_RDWR)
-        if acc == 0:
-            sf = self.open(p, "rb")
+        if dir_fd is None or p.startswith("/"):
+            return p
+        h = self._fd(dir_fd)
+        if not isinstance(h, SimDirHandle):
+            raise oserr(errno.ENOTDIR, p)
+        return h.path.rstrip("/") + "/" + p
+
+    def os_open(self, path, flags, mode=0o777, *, dir_fd=None):
+        import os as _o
+
+        p = self._at(path, dir_fd)
+        if self.is_real(p):
+            raise HarnessError("os.open of the real path %r from inside the simulation" % (p,))
+        acc = flags & _o.O_ACCMODE
+        exists, node = True, None
+        try:
+            node = self._walk(p, follow_last=not (flags & _o.O_NOFOLLOW))
+        except OSError:
+            exists = False
+        if exists and node.kind == "l" and (flags & _o.O_NOFOLLOW):
+            self._seam("open_r", p)
+            raise oserr(errno.ELOOP, p)
+        if exists and node.kind == "d" and acc == _o.O_RDONLY and not (flags & _o.O_CREAT):
+            self._seam("open_r", p)
+            h = SimDirHandle(self, node, posixpath.normpath(self._abspath(p)))
+            return self.alloc_fd(h)
+        if (flags & getattr(_o, "O_DIRECTORY", 0)) and exists and node.kind != "d":
+            self._seam("open_r", p)
+            raise oserr(errno.ENOTDIR, p)
+        if acc == _o.O_RDONLY and not (flags & _o.O_CREAT):
+            raw = self._open_raw(p, True, False, False, False, False)
         else:
-            exists = True
-            try:
-                self._walk(p)
-            except OSError:
-                exists = False
-            if exists and (flags & _o.O_CREAT) and (flags & _o.O_EXCL):
-                self._seam("open_w", p)
-                raise oserr(errno.EEXIST, p)
-            if not exists and not (flags & _o.O_CREAT):
-                self._seam("open_w", p)
-                raise oserr(errno.ENOENT, p)
-            m = "wb" if (flags & _o.O_TRUNC) or not exists else "ab"
-            sf = self.open(p, m)
-        if not hasattr(self, "fds"):
-            self.fds = {}
-        fd = self.FD_BASE + len(self.fds) + sum(1 for _ in ())
-        while fd in self.fds:
-            fd += 1
-        self.fds[fd] = sf
-        return fd
+            raw = self._open_raw(
+                p,
+                False,
+                acc != _o.O_RDONLY,
+                bool(flags & _o.O_APPEND),
+                bool(flags & _o.O_EXCL) and bool(flags & _o.O_CREAT),
+                bool(flags & _o.O_TRUNC) and acc != _o.O_RDONLY,
+                readable=acc in (_o.O_RDONLY, _o.O_RDWR),
+                create=bool(flags & _o.O_CREAT),
+            )
+        return raw.fileno()
 
     def _fd(self, fd):
         sf = getattr(self, "fds", {}).get(fd)
@@ -698,19 +763,37 @@ class SimFS:
             raise oserr(errno.EBADF)
         return sf
 
-    def os_write(self, fd, data):
+    def _rawfd(self, fd):
         sf = self._fd(fd)
-        sf.write(bytes(data))
-        sf.flush()  # a write(2) goes to the page cache at once
-        return len(data)
+        if not isinstance(sf, SimRaw):
+            raise oserr(errno.EISDIR)
+        return sf
+
+    def os_write(self, fd, data):
+        return self._rawfd(fd).write(data)  # a write(2) goes to the page cache at once
 
     def os_read(self, fd, n):
-        return self._fd(fd).read(n)
+        return self._rawfd(fd).read(n)
+
+    def os_lseek(self, fd, pos, how):
+        return self._rawfd(fd).seek(pos, how)
+
+    def os_sendfile(self, out_fd, in_fd, offset, count):
+        src, dst = self._rawfd(in_fd), self._rawfd(out_fd)
+        self._seam("read", src.name)
+        start = src._pos if offset is None else offset
+        data = src.node.data[start : start + count]
+        if offset is None:
+            src._pos += len(data)
+        if not data:
+            return 0
+        return dst.write(data)
 
     def os_close(self, fd):
         sf = self._fd(fd)
-        del self.fds[fd]
-        sf._fdno = None
+        if isinstance(sf, SimDirHandle):
+            del self.fds[fd]
+            return
         sf.close()
 
     def alloc_fd(self, sf) -> int:
@@ -723,38 +806,36 @@ class SimFS:
         return fd
 
     def os_fsync(self, fd):
-        sf = self._fd(fd) if isinstance(fd, int) else fd
-        sf.flush()
+        if not isinstance(fd, int):
+            fd = fd.fileno()
+        sf = self._fd(fd)
         sf.node.dirty_from = None  # durable from here on
 
     def os_fstat(self, fd):
         return SimStat(self._fd(fd).node)
 
     def fdopen(self, fd, mode="r", buffering=-1, encoding=None, errors=None, newline=None, closefd=True, opener=None):
-        sf = self._fd(fd)
-        sf._fdno = fd  # the file object owns the descriptor now; fileno() keeps answering it
-        sf.binary = "b" in mode
-        sf.encoding = encoding or "utf-8"
-        sf.errors = errors or "strict"
-        return sf
+        raw = self._rawfd(fd)
+        fl = _ModeFlags(mode, buffering, encoding, errors, newline)
+        return self._wrap(raw, mode, fl, buffering, encoding, errors, newline)
 
     def chmod(self, path, mode, *, dir_fd=None, follow_symlinks=True):
         if isinstance(path, int):
             node = self._fd(path).node
         else:
-            p = _real_os.fspath(path)
+            p = self._at(path, dir_fd)
             self._seam("open_w", p)
             node = self._walk(p, follow_last=follow_symlinks)
         node.perm = mode & 0o7777
 
     def chown(self, path, uid, gid, *, dir_fd=None, follow_symlinks=True):
         if not isinstance(path, int):
-            p = _real_os.fspath(path)
+            p = self._at(path, dir_fd)
             self._seam("open_w", p)
             self._walk(p, follow_last=follow_symlinks)
 
     def symlink(self, src, dst, target_is_directory=False, *, dir_fd=None):
-        d = _real_os.fspath(dst)
+        d = self._at(dst, dir_fd)
         self._seam("open_w", d)
         parent, name = self._walk(d, want_parent=True)
         if name in parent.entries:
@@ -765,7 +846,7 @@ class SimFS:
         parent.entries[name] = node.ino
 
     def link(self, src, dst, *, src_dir_fd=None, dst_dir_fd=None, follow_symlinks=True):
-        s_, d = _real_os.fspath(src), _real_os.fspath(dst)
+        s_, d = self._at(src, src_dir_fd), self._at(dst, dst_dir_fd)
         self._seam("open_w", d)
         node = self._walk(s_, follow_last=follow_symlinks)
         if node.kind == "d":
@@ -791,9 +872,12 @@ class SimFS:
         node.mtime = self.now()
 
     def utime(self, path, times=None, *, ns=None, dir_fd=None, follow_symlinks=True):
-        p = _real_os.fspath(path)
-        self._seam("open_w", p)
-        node = self._walk(p, follow_last=follow_symlinks)
+        if isinstance(path, int):
+            node = self._fd(path).node
+        else:
+            p = self._at(path, dir_fd)
+            self._seam("open_w", p)
+            node = self._walk(p, follow_last=follow_symlinks)
         if times is not None:
             node.mtime = float(times[1])
         elif ns is not None:
@@ -802,15 +886,24 @@ class SimFS:
             node.mtime = self.now()
 
     def scandir(self, path="."):
-        p = _real_os.fspath(path)
-        if self.is_real(p):
-            return _real_os.scandir(p)
+        via_fd = isinstance(path, int)
+        if via_fd:
+            if path < self.FD_BASE:
+                return _REAL_SCANDIR(path)
+            p = self._fd(path).path
+        else:
+            p = _real_os.fspath(path)
+            if isinstance(p, bytes):
+                p = p.decode("utf-8", "surrogateescape")
+            if self.is_real(p):
+                return _REAL_SCANDIR(p)
         self._seam("stat", p)
         node = self._walk(p)
         if node.kind != "d":
             raise oserr(errno.ENOTDIR, p)
         fs = self
-        entries = [SimDirEntry(fs, p, name, fs.inodes[ino]) for name, ino in sorted(node.entries.items())]
+        # (scanning a descriptor: DirEntry.path is the bare name, as in CPython)
+        entries = [SimDirEntry(fs, p, name, fs.inodes[ino], bare=via_fd) for name, ino in sorted(node.entries.items())]
 
         class _It:
             def __init__(self_):
@@ -835,16 +928,17 @@ class SimFS:
 
     def access(self, path, mode, *, dir_fd=None, effective_ids=False, follow_symlinks=True) -> bool:
         try:
-            self.stat(path, follow_symlinks=follow_symlinks)
+            self.stat(path, dir_fd=dir_fd, follow_symlinks=follow_symlinks)
             return True
         except OSError:
             return False
 
 
 class SimDirEntry:
-    def __init__(self, fs, parent, name, node):
+    def __init__(self, fs, parent, name, node, bare=False):
         self._fs, self.name, self._node = fs, name, node
-        self.path = name if parent in (".", "") else parent.rstrip("/") + "/" + name
+        self._full = (fs.cwd if parent in (".", "") else parent).rstrip("/") + "/" + name
+        self.path = name if bare else ("./" + name if parent == "." else parent.rstrip("/") + "/" + name) if parent != "" else name
 
     def inode(self):
         return self._node.ino
@@ -852,7 +946,7 @@ class SimDirEntry:
     def _target(self, follow):
         if self._node.kind == "l" and follow:
             try:
-                return self._fs._walk(self.path)
+                return self._fs._walk(self._full)
             except OSError:
                 return None
         return self._node
@@ -881,184 +975,212 @@ class SimDirEntry:
         return "<SimDirEntry %r>" % self.name
 
 
-class SimFile:
-    """File object handed to the system under test (text or binary)."""
+class _ModeFlags:
+    """Mode-string validation of io.open (same errors, same order)."""
 
-    def __init__(self, fs: SimFS, node: Inode, path: str, mode: str, binary: bool, encoding, errors):
+    def __init__(self, mode, buffering, encoding, errors, newline):
+        modes = set(mode)
+        if modes - set("axrwb+t") or len(mode) > len(modes):
+            raise ValueError("invalid mode: %r" % mode)
+        self.creating = "x" in modes
+        self.reading = "r" in modes
+        self.writing = "w" in modes
+        self.appending = "a" in modes
+        self.updating = "+" in modes
+        self.text = "t" in modes
+        self.binary = "b" in modes
+        if self.text and self.binary:
+            raise ValueError("can't have text and binary mode at once")
+        if self.creating + self.reading + self.writing + self.appending > 1:
+            raise ValueError("can't have read/write/append mode at once")
+        if not (self.creating or self.reading or self.writing or self.appending):
+            raise ValueError("Must have exactly one of create/read/write/append mode and at most one plus")
+        if self.binary and encoding is not None:
+            raise ValueError("binary mode doesn't take an encoding argument")
+        if self.binary and errors is not None:
+            raise ValueError("binary mode doesn't take an errors argument")
+        if self.binary and newline is not None:
+            raise ValueError("binary mode doesn't take a newline argument")
+
+    def os_flags(self) -> int:
+        o = _real_os
+        if self.reading:
+            fl = o.O_RDWR if self.updating else o.O_RDONLY
+        else:
+            fl = (o.O_RDWR if self.updating else o.O_WRONLY) | o.O_CREAT
+            if self.writing:
+                fl |= o.O_TRUNC
+            if self.appending:
+                fl |= o.O_APPEND
+            if self.creating:
+                fl |= o.O_EXCL
+        return fl | getattr(o, "O_CLOEXEC", 0)
+
+
+class SimDirHandle:
+    """A descriptor of a directory (os.open(dir, O_RDONLY): dir_fd=..., os.scandir(fd))."""
+
+    def __init__(self, fs, node, path):
+        self.fs, self.node, self.path = fs, node, path
+
+    def _abandon(self):
+        pass
+
+
+import io as _io
+
+
+class SimRaw(_io.RawIOBase):
+    """The raw (unbuffered, binary) layer of an open simulated file: what io.FileIO is for a
+    real one. Reads, writes and the final close are seam calls (numbered, fault-injectable);
+    the buffering and text layers above are CPython's own."""
+
+    def __init__(self, fs, node, path, readable, writable, append):
+        super().__init__()
         self.fs = fs
         self.node = node
         self.name = path
-        self.mode = mode
-        self.binary = binary
-        self.encoding = encoding or "utf-8"
-        self.errors = errors or "strict"
-        self.closed = False
-        self._buf = b""  # userspace write buffer
-        self._rpos = 0
+        self._r, self._w, self._append = bool(readable), bool(writable), bool(append)
+        self._pos = 0
         self._dead = False
+        self._fdno = None
+        self.mode = ("ab+" if readable else "ab") if append else ("rb+" if readable else "wb") if writable else "rb"
 
-    # context manager
-    def __enter__(self):
-        return self
-
-    def __exit__(self, et, ev, tb):
-        self.close()
-        return False
-
+    # --- the simulator's side
     def _abandon(self) -> None:
+        """The process was killed: nothing this object is asked to do reaches the disk any more."""
         self._dead = True
-        self._buf = b""
-        self.closed = True
 
-    def _check(self) -> None:
+    def _alive(self) -> None:
         if self.closed and not self._dead:
             raise ValueError("I/O operation on closed file.")
 
+    # --- io.RawIOBase
     def readable(self):
-        return self.mode == "r"
+        self._alive()
+        return self._r
 
     def writable(self):
-        return self.mode == "w"
+        self._alive()
+        return self._w
 
     def seekable(self):
+        self._alive()
+        return True
+
+    def isatty(self):
+        self._alive()
         return False
 
     def fileno(self):
-        if self.closed:
-            raise ValueError("I/O operation on closed file")
-        if getattr(self, "_fdno", None) is None:
+        self._alive()
+        if self._fdno is None:
             self._fdno = self.fs.alloc_fd(self)
         return self._fdno
 
-    def isatty(self):
-        return False
-
-    # reading
-    def read(self, size=-1):
+    def readinto(self, b):
         if self._dead:
-            return b"" if self.binary else ""
-        self._check()
-        if self.mode != "r":
-            import io
-
-            raise io.UnsupportedOperation("not readable")
+            return 0
+        self._alive()
+        if not self._r:
+            raise _io.UnsupportedOperation("File not open for reading")
         self.fs._seam("read", self.name)
-        data = self.node.data[self._rpos :] if size is None or size < 0 else self.node.data[self._rpos : self._rpos + size]
-        self._rpos += len(data)
-        if self.binary:
-            return data
-        text = data.decode(self.encoding, self.errors)
-        return text.replace("\r\n", "\n").replace("\r", "\n")
+        data = self.node.data[self._pos : self._pos + len(b)]
+        n = len(data)
+        b[:n] = data
+        self._pos += n
+        return n
 
-    def readline(self, size=-1):
+    def _store(self, data: bytes) -> None:
+        if not data:
+            return
+        node = self.node
+        if node.dirty_from is None:
+            node.dirty_from = node.data
+        cur = node.data
+        pos = len(cur) if self._append else self._pos
+        if pos > len(cur):
+            cur = cur + b"\0" * (pos - len(cur))
+        node.data = cur[:pos] + data + cur[pos + len(data) :]
+        self._pos = pos + len(data)
+        node.mtime = self.fs.now()
+
+    def write(self, b):
+        data = bytes(b)
         if self._dead:
-            return b"" if self.binary else ""
-        self._check()
-        self.fs._seam("read", self.name)
-        rest = self.node.data[self._rpos :]
-        k = rest.find(b"\n")
-        line = rest if k < 0 else rest[: k + 1]
-        self._rpos += len(line)
-        return line if self.binary else line.decode(self.encoding, self.errors)
-
-    def readlines(self, hint=-1):
-        out = []
-        while True:
-            l = self.readline()
-            if not l:
-                return out
-            out.append(l)
-
-    def __iter__(self):
-        return iter(self.readlines())
-
-    # writing
-    def write(self, s):
-        if self._dead:
-            return len(s)
-        self._check()
-        if self.mode != "w":
-            import io
-
-            raise io.UnsupportedOperation("not writable")
-        if self.binary:
-            data = bytes(s)
-        else:
-            if not isinstance(s, str):
-                raise TypeError("write() argument must be str, not %s" % type(s).__name__)
-            data = s.encode(self.encoding, self.errors)
-        f = self.fs._seam("write", self.name)
-        self._buf += data
+            return len(data)
+        self._alive()
+        if not self._w:
+            raise _io.UnsupportedOperation("File not open for writing")
+        fs = self.fs
+        f = fs._seam("write", self.name)
         if f is not None:
-            # fault while this write is flushed: a seeded prefix reaches the page cache
-            total = len(self._buf)
+            # a fault while this write(2) is carried out: a seeded prefix reaches the page cache
+            total = len(data)
+            if f["kind"] == "crash":
+                keep = int(total * f.get("frac", 0.0))
+                self._store(data[:keep])
+                fs.fired.append({"call": fs.call_no, "seam": "write", "kind": "crash", "power": bool(f.get("power")), "kept": keep, "of": total})
+                fs._do_crash(bool(f.get("power")), f.get("tear", 0))
+                raise SimCrash(bool(f.get("power")), "write#%d" % fs.call_no)
             keep = int(total * f.get("frac", 0.5))
             if keep and keep == total:
                 keep -= 1
-            if f["kind"] == "crash":
-                if len(self._buf) > BUFSZ or f.get("frac") is not None:
-                    # a large write goes straight to the descriptor: any prefix may be out
-                    self.node.data += self._buf[:keep] if len(self._buf) > BUFSZ else b""
-                self._buf = b""
-                self.fs.fired.append({"call": self.fs.call_no, "seam": "write", "kind": "crash", "power": bool(f.get("power")), "of": total})
-                self.fs._do_crash(bool(f.get("power")), f.get("tear", 0))
-                raise SimCrash(bool(f.get("power")), "write#%d" % self.fs.call_no)
-            self.node.data += self._buf[:keep]
-            self._buf = b""
-            self.fs.fired.append({"call": self.fs.call_no, "seam": "write", "kind": f["kind"], "kept": keep, "of": total})
-            self.fs._probe("torn_write")
+            self._store(data[:keep])
+            fs.fired.append({"call": fs.call_no, "seam": "write", "kind": f["kind"], "kept": keep, "of": total})
+            fs._probe("torn_write")
             raise oserr(getattr(errno, f["kind"]), self.name)
-        # CPython: pending text above the chunk size is flushed through completely
-        if len(self._buf) > BUFSZ:
-            self.node.data += self._buf
-            self.node.mtime = self.fs.now()
-            self._buf = b""
-        return len(s)
+        self._store(data)
+        return len(data)
 
-    def writelines(self, lines):
-        for l in lines:
-            self.write(l)
+    def seek(self, pos, whence=0):
+        self._alive()
+        if not isinstance(pos, int):
+            raise TypeError("an integer is required")
+        if whence == 0:
+            new = pos
+        elif whence == 1:
+            new = self._pos + pos
+        elif whence == 2:
+            new = len(self.node.data) + pos
+        else:
+            raise oserr(errno.EINVAL)
+        if new < 0:
+            raise oserr(errno.EINVAL)
+        self._pos = new
+        return new
 
-    def flush(self):
-        if self._dead or self.closed:
-            return
-        if self.mode == "w" and self._buf:
-            self.node.data += self._buf
-            self._buf = b""
+    def tell(self):
+        self._alive()
+        return self._pos
+
+    def truncate(self, size=None):
+        self._alive()
+        if not self._w:
+            raise _io.UnsupportedOperation("File not open for writing")
+        if size is None:
+            size = self._pos
+        if self._dead:
+            return size
+        node = self.node
+        if node.dirty_from is None:
+            node.dirty_from = node.data
+        node.data = node.data[:size] + b"\0" * max(0, size - len(node.data))
+        node.mtime = self.fs.now()
+        return size
 
     def close(self):
         if self.closed:
             return
-        if self.mode == "w":
-            try:
-                self.fs._seam("close_w", self.name)
-            except OSError:
-                # like CPython: the descriptor is closed even if the final flush failed
-                self.closed = True
-                self._buf = b""
-                if self in self.fs.open_files:
-                    self.fs.open_files.remove(self)
-                raise
-            if self._dead:
-                return
-            if self._buf:
-                self.node.data += self._buf
-                self.node.mtime = self.fs.now()
-            self._buf = b""
-        self.closed = True
-        fdno = getattr(self, "_fdno", None)
-        if fdno is not None:
-            getattr(self.fs, "fds", {}).pop(fdno, None)
-            self._fdno = None
-        if self in self.fs.open_files:
-            self.fs.open_files.remove(self)
-
-    def __del__(self):
-        # A leaked, never-closed writer loses nothing in CPython (the finalizer
-        # flushes); model that, without counting a seam call.
         try:
-            if not self.closed and not self._dead and self.mode == "w":
-                self.node.data += self._buf
-                self._buf = b""
-        except Exception:
-            pass
+            super().close()  # marks the object closed (the descriptor is gone whatever happens next)
+        finally:
+            fs = self.fs
+            if self._fdno is not None:
+                getattr(fs, "fds", {}).pop(self._fdno, None)
+                self._fdno = None
+            if self in fs.open_files:
+                fs.open_files.remove(self)
+        if self._w and not self._dead:
+            # close(2) is where a delayed write error is reported
+            self.fs._seam("close_w", self.name)
